@@ -10,10 +10,17 @@
   The request-head parser and the bytes of ordinary replies are parameters (C02/C03/C04); the
   parser is only assumed prefix-stable where stated.
 
-  Partial: TLS forwarding (process_urh, GnuTLS) is outside the model; only the cleanup
-  accounting of the handle (`clean_ready`) is modelled.
+  The 101 head is not a fixed text: `head101` is C04's model of `build_header_response`
+  (`Mhd.Reply.headSegs` after `setup_reply_properties`) applied to the response object the
+  application built (`MHD_create_response_for_upgrade` + any legal sequence of
+  MHD_add_response_header / MHD_del_response_header / MHD_set_response_options), see
+  `head101_is_reply_builder`, `upgrade_head_connection_tokens`, `head101_explicit`.
+
+  Partial: TLS forwarding (process_urh, GnuTLS) is outside this model; only the cleanup
+  accounting of the handle (`clean_ready`) is modelled here.
 -/
 import Mhd.Proofs.UpgWire
+import Mhd.Proofs.UpgHead101
 
 namespace Mhd.C20
 open Mhd.Upg
@@ -115,11 +122,14 @@ theorem hasUpg_of_mem {rid : Nat} {extra : Bytes} {l : List Ev} (h : Ev.upgrade 
   simp only [hasUpg, List.any_eq_true]
   exact ⟨_, h, rfl⟩
 
-/-- **The client receives exactly the 101 head.**  For every history: once the upgrade handler
+/-- **The client receives exactly the 101 reply head.**  For every history: once the upgrade handler
     has been called for response `rid`, all bytes the daemon has ever written to this client are
     the replies to the earlier requests of the connection (`pre`, empty when the upgraded request
     is the first) followed by exactly `head101` of that response — complete, nothing after it
-    (`no_daemon_io_after_handover` excludes later writes, so this stays true for ever). -/
+    (`no_daemon_io_after_handover` excludes later writes, so this stays true for ever).
+    `head101` is the reply builder of C04 applied to the response object with whatever flags and
+    headers the application gave it (`head101_is_reply_builder`); what that is, byte for byte, for
+    every object an application can build: `head101_explicit`, `upgrade_head_connection_tokens`. -/
 theorem wire_is_head101 (base : Cfg) (behs : Nat → Nat → Beh) (ops : List Op) (c : Nat) (rid : Nat) (extra : Bytes)
     (h : Ev.upgrade rid extra ∈ (connOf base behs ops c).log) :
     ∃ pre : List Bytes, daemonWire (connOf base behs ops c).log = pre.flatten ++ head101 base (base.resp rid) := by
@@ -141,6 +151,105 @@ theorem wire_is_head101 (base : Cfg) (behs : Nat → Nat → Beh) (ops : List Op
   have : (connOf base behs ops c).outq = pre ++ [head101 base (base.resp rid)] := by
     rw [← hcfg]; exact hpre
   rw [this]; simp
+
+/-! ### what the 101 head is: the reply builder applied to the application's response object -/
+
+open Mhd.Resp Mhd.Reply in
+/-- **`head101` is `build_header_response`** (C04's model, `icy = false`, the connection as the upgrade
+    path leaves it): whenever the builder does not refuse for lack of write-buffer space its output
+    is `head101`, and its keep-alive decision is the one of `setup_reply_properties`. -/
+theorem head101_is_reply_builder (cfg : Cfg) (rs : Mhd.Upg.Resp) (bufSize : Nat) (out : Bytes)
+    (h : (buildHeaderResponse (replyConn cfg) rs.obj rs.code false (some cfg.date) bufSize).2.2 = some out) :
+    out = head101 cfg rs :=
+  (headBytes_is_buildHeaderResponse (replyConn cfg) rs.obj rs.code cfg.date bufSize out h).1
+
+open Mhd.Resp Mhd.Reply in
+/-- **No automatic "Connection" tokens on an upgrade reply — for all response flags and all header
+    call sequences.**  Let `r` be ANY response object obtained from `MHD_create_response_for_upgrade`
+    by legal API calls (`cs`: add / delete headers incl. several "Connection" values in any case and
+    order, footers, `MHD_set_response_options` with any flags except the insanity flag), queued with a
+    1xx status on a connection that is not already in MUST_CLOSE (any HTTP version, method, early or
+    late reply, any "Connection" tokens in the request).  Then
+    * `setup_reply_properties` decides MUST_UPGRADE, no body, no body headers,
+    * no automatic "Connection" field is written,
+    * `add_user_headers` writes exactly the application's stored headers, verbatim and in order
+      (`appFields`: every header-kind entry except "Transfer-Encoding" / "Content-Length"), so the
+      stored "Connection" header — which is first in the list — goes out with NOTHING prefixed
+      (no `close, `, no `Keep-Alive, `),
+    * no automatic "Content-Length" / "Transfer-Encoding" is written,
+    * and no Connection field of the whole block carries a `close` token. -/
+theorem upgrade_head_connection_tokens (cs : List Call) (hl : ∀ c ∈ cs, c.Legal) (c : Mhd.Reply.Conn)
+    (hk : c.keepalive ≠ .mustClose) (code : Nat) (hc : code ≤ 199) (date : Option Bytes) :
+    (setupReplyProperties c (runCalls Resp.createUpgrade cs) code) = (.mustUpgrade, ⟨false, false, false⟩) ∧
+    connFields c (runCalls Resp.createUpgrade cs) .mustUpgrade = [] ∧
+    userFields c (runCalls Resp.createUpgrade cs) .mustUpgrade ⟨false, false, false⟩
+      = appFields (runCalls Resp.createUpgrade cs) ∧
+    (∀ v rest, (runCalls Resp.createUpgrade cs).hdrs = ⟨.header, sConnection, v⟩ :: rest →
+      (userFields c (runCalls Resp.createUpgrade cs) .mustUpgrade ⟨false, false, false⟩).head? = some ⟨sConnection, v⟩) ∧
+    bodyHdrSegs (runCalls Resp.createUpgrade cs) ⟨false, false, false⟩ = [] ∧
+    Mhd.Http.announcesClose (((allFields c (runCalls Resp.createUpgrade cs) date .mustUpgrade
+        ⟨false, false, false⟩).map toHttp).map Mhd.Http.normField) = false := by
+  obtain ⟨hi, ht, hu, hcc⟩ := upgradeObj_facts cs hl
+  refine ⟨setup_upgrade c _ code hu hk hc, connFields_upgrade c _, userFields_upgrade c _ hi, ?_, by simp [bodyHdrSegs],
+    Mhd.Tok.no_close_in_fields' c _ date .mustUpgrade _ hi ht hcc rfl⟩
+  intro v rest hh
+  rw [userFields_upgrade c _ hi]
+  unfold appFields
+  rw [hh]
+  have : keep101 ⟨.header, sConnection, v⟩ = true := by
+    simp [keep101, Mhd.Resp.nameIs_conn_te, Mhd.Resp.nameIs_conn_cl]
+  simp [this, toField]
+
+open Mhd.Resp Mhd.Reply in
+/-- **The 101 head, byte for byte**, for every response object an application can build from
+    `MHD_create_response_for_upgrade` (without the HTTP/1.0 flags, with which the response is refused:
+    `unmet_precondition_refused` / `oneXXresp10`): the status line `HTTP/1.1 101 Switching Protocols`
+    (constants regenerated independently for C20), the automatic Date unless suppressed or supplied by
+    the application, then exactly the application's headers verbatim in order, then the empty line. -/
+theorem head101_explicit (cfg : Cfg) (cs : List Call) (hl : ∀ c ∈ cs, c.Legal) (cih : Bool)
+    (h10 : (runCalls Resp.createUpgrade cs).flags.http10Server = false) :
+    head101 cfg { obj := runCalls Resp.createUpgrade cs, closeInHandler := cih, code := Mhd.Gen.Upg.switchingProtocols } =
+      [72, 84, 84, 80, 47, 49, 46, 49, 32, 49, 48, 49, 32] ++ Mhd.Gen.Upg.reason101 ++ [13, 10]
+        ++ ((fields101 (replyConn cfg) (runCalls Resp.createUpgrade cs) cfg.date).map fieldLine).flatten ++ [13, 10] := by
+  obtain ⟨hi, _, hu, _⟩ := upgradeObj_facts cs hl
+  unfold head101
+  rw [headBytes_upgrade (replyConn cfg) _ _ cfg.date hi hu (by simp [replyConn]) (by show Mhd.Gen.Upg.switchingProtocols ≤ 199; decide)]
+  have e1 : versionStr (runCalls Resp.createUpgrade cs) false = [72, 84, 84, 80, 47, 49, 46, 49] := by
+    simp only [versionStr, h10]; decide
+  have e2 : codeDigits Mhd.Gen.Upg.switchingProtocols = [49, 48, 49] := by decide
+  have e3 : reasonPhrase Mhd.Gen.Upg.switchingProtocols = Mhd.Gen.Upg.reason101 := by decide
+  simp only [e1, e2, e3, Mhd.Reply.crlf]
+  simp [List.append_assoc]
+
+open Mhd.Resp Mhd.Reply in
+/-- **The head does not depend on the request**: HTTP/1.1 or 1.2+, any method, reply queued at the
+    first or the final handler call, request with `Connection: keep-alive, upgrade` or
+    `Connection: close, upgrade`, client half-closed — the same bytes. -/
+theorem upgrade_head_indep_of_request (cs : List Call) (hl : ∀ c ∈ cs, c.Legal) (c c' : Mhd.Reply.Conn)
+    (hk : c.keepalive ≠ .mustClose) (hk' : c'.keepalive ≠ .mustClose) (hs : c.suppressDate = c'.suppressDate)
+    (code : Nat) (hc : code ≤ 199) (date : Bytes) :
+    headBytes c (runCalls Resp.createUpgrade cs) code date = headBytes c' (runCalls Resp.createUpgrade cs) code date := by
+  obtain ⟨hi, _, hu, _⟩ := upgradeObj_facts cs hl
+  exact headBytes_indep_of_request c c' _ code date hi hu hk hk' hs hc
+
+/-- an accepted upgrade response has status 101 and none of the HTTP/1.0 response flags -/
+theorem accepted_upgrade_is_101_http11 (cfg : Cfg) (shutdown : Bool) (x : Conn) (rs : Mhd.Upg.Resp)
+    (h : queueCheck cfg shutdown x rs = none) (hu : rs.upgrade = true) :
+    rs.code = Mhd.Gen.Upg.switchingProtocols ∧ rs.flags10 = false := by
+  unfold queueCheck at h
+  split at h
+  · simp at h
+  · have hsw : Mhd.Gen.Upg.switchingProtocols = 101 := rfl
+    by_cases a : rs.code = Mhd.Gen.Upg.switchingProtocols
+    · refine ⟨a, ?_⟩
+      cases hf : rs.flags10 with
+      | false => rfl
+      | true =>
+        have a' : rs.code = 101 := a.trans hsw
+        simp [hu, a', hf, hsw] at h
+        repeat (split at h <;> try simp at h)
+    · simp [hu, a] at h
+      repeat (split at h <;> try simp at h)
 
 /-- the reply built for an accepted upgrade response is exactly the 101 head -/
 theorem upgrade_reply_is_head101 (cfg : Cfg) (x : Conn) (rid : Nat) (h : x.rp = some rid)
@@ -406,9 +515,18 @@ namespace Ex
 /-- a toy parser: the head is the three bytes `G \n \n` -/
 def parser : Parser := ⟨fun bs => if ([71, 10, 10] : Bytes).isPrefixOf bs then some ⟨3, .v11, false, false⟩ else none⟩
 
-def upResp : Resp := { upgrade := true, closeInHandler := false, code := 101, connHdr := some [85, 112, 103, 114, 97, 100, 101],
-                       hdrs := [], flags10 := false }
-def okResp : Resp := { upgrade := false, closeInHandler := false, code := 200, connHdr := none, hdrs := [], flags10 := false }
+/-- flags = MHD_RF_SEND_KEEP_ALIVE_HEADER -/
+def kaFlags : Mhd.Resp.RFlags := { sendKeepAlive := true }
+/-- an upgrade response the application decorated: Connection edited twice (the `upgrade` token ends
+    up in the middle, a keep-alive token is dropped by the response API), several protocols offered,
+    the keep-alive response flag set -/
+def upCalls : List Mhd.Resp.Call :=
+  [.opt kaFlags, .del Mhd.Resp.sConnection [85, 112, 103, 114, 97, 100, 101],
+   .add Mhd.Resp.sConnection [88, 45, 65, 44, 32, 117, 112, 71, 82, 65, 68, 69, 44, 32, 75, 101, 101, 112, 45, 65, 108, 105, 118, 101],
+   .add [85, 112, 103, 114, 97, 100, 101] [119, 115, 44, 32, 104, 50, 99],
+   .add Mhd.Resp.sConnection [88, 45, 66]]
+def upResp : Resp := { obj := Mhd.Resp.runCalls Mhd.Resp.Resp.createUpgrade upCalls, closeInHandler := false, code := 101 }
+def okResp : Resp := { obj := Mhd.Resp.Resp.create 5, closeInHandler := false, code := 200 }
 
 def base : Cfg := { allowUpgrade := true, parser := parser, resp := fun rid => if rid = 1 then upResp else okResp,
                     beh := fun _ => { early := false, tries := [] }, date := [68], render := fun _ => [82] }
@@ -451,6 +569,7 @@ theorem head_ok : IsHead parser [71, 10, 10] := by
 
 end Ex
 
+set_option maxRecDepth 200000 in
 /-- the example history really hands over: extra data `[1,2]`, one more byte read by the
     application, everything accounted for, released exactly once -/
 example : hasUpg (connOf Ex.base Ex.behs Ex.ops 0).log = true ∧
@@ -465,10 +584,37 @@ example : hasUpg (connOf Ex.base Ex.behs Ex.ops 0).log = true ∧
     Ev.upgrade 1 [1, 2] ∈ (connOf Ex.base Ex.behs Ex.ops 0).log ∧
     daemonWire (connOf Ex.base Ex.behs Ex.ops 0).log = head101 Ex.base Ex.upResp := by decide
 
+set_option maxRecDepth 200000 in
 /-- hypotheses of `close_action_releases_in_next_round` are satisfiable: before the close action
     the application owns the socket of connection 0 and the daemon is running -/
 example : (connOf Ex.base Ex.behs (Ex.ops.take 11) 0).appOwns = true ∧
     (reach Ex.base Ex.behs (Ex.ops.take 11)).shutdown = false := by decide
+
+/-- the decorated example response: the calls are legal, the object keeps the upgrade handler and the
+    keep-alive response flag, its "Connection" value has the `upgrade` token in the middle
+    (hypotheses of `upgrade_head_connection_tokens` / `head101_explicit` are satisfiable, non-trivially) -/
+example : (∀ c ∈ Ex.upCalls, c.Legal) ∧ Ex.upResp.obj.flags.sendKeepAlive = true ∧ Ex.upResp.upgrade = true ∧
+    Ex.upResp.obj.flags.http10Server = false ∧ (replyConn Ex.base).keepalive ≠ .mustClose ∧
+    Ex.upResp.connHdr = some [88, 45, 65, 44, 32, 117, 112, 71, 82, 65, 68, 69, 44, 32, 88, 45, 66] := by
+  refine ⟨?_, by decide, by decide, by decide, by decide, by decide⟩
+  intro c hc
+  simp only [Ex.upCalls, List.mem_cons, List.not_mem_nil, or_false] at hc
+  rcases hc with rfl | rfl | rfl | rfl | rfl
+  · rfl
+  · trivial
+  · exact ⟨by decide, fun h => absurd h (by decide)⟩
+  · exact ⟨by decide, fun h => absurd h (by decide)⟩
+  · exact ⟨by decide, fun h => absurd h (by decide)⟩
+
+set_option maxRecDepth 200000 in
+/-- … and its 101 head, computed by the reply builder: `HTTP/1.1 101 Switching Protocols`, `Date: D`,
+    `Connection: X-A, upGRADE, X-B` (no `Keep-Alive, ` although MHD_RF_SEND_KEEP_ALIVE_HEADER is set),
+    `Upgrade: ws, h2c`, empty line; the builder with a 200-byte buffer returns the same bytes, with
+    a 60-byte buffer it refuses -/
+example : head101 Ex.base Ex.upResp = ([72, 84, 84, 80, 47, 49, 46, 49, 32, 49, 48, 49, 32, 83, 119, 105, 116, 99, 104, 105, 110, 103, 32, 80, 114, 111, 116, 111, 99, 111, 108, 115, 13, 10, 68, 97, 116, 101, 58, 32, 68, 13, 10, 67, 111, 110, 110, 101, 99, 116, 105, 111, 110, 58, 32, 88, 45, 65, 44, 32, 117, 112, 71, 82, 65, 68, 69, 44, 32, 88, 45, 66, 13, 10, 85, 112, 103, 114, 97, 100, 101, 58, 32, 119, 115, 44, 32, 104, 50, 99, 13, 10, 13, 10] : Bytes) ∧
+    (Mhd.Reply.buildHeaderResponse (replyConn Ex.base) Ex.upResp.obj 101 false (some Ex.base.date) 200).2.2 = some ([72, 84, 84, 80, 47, 49, 46, 49, 32, 49, 48, 49, 32, 83, 119, 105, 116, 99, 104, 105, 110, 103, 32, 80, 114, 111, 116, 111, 99, 111, 108, 115, 13, 10, 68, 97, 116, 101, 58, 32, 68, 13, 10, 67, 111, 110, 110, 101, 99, 116, 105, 111, 110, 58, 32, 88, 45, 65, 44, 32, 117, 112, 71, 82, 65, 68, 69, 44, 32, 88, 45, 66, 13, 10, 85, 112, 103, 114, 97, 100, 101, 58, 32, 119, 115, 44, 32, 104, 50, 99, 13, 10, 13, 10] : Bytes) ∧
+    (Mhd.Reply.buildHeaderResponse (replyConn Ex.base) Ex.upResp.obj 101 false (some Ex.base.date) 60).2.2 = none := by
+  decide
 
 /-- hypotheses of the refusal theorems are satisfiable: an upgrade response with status 200 is
     refused in a state where a plain 200 response is accepted -/
